@@ -145,11 +145,13 @@ def wire_names(cls: type) -> Dict[str, str]:
 # per-type samples (first element = baseline)
 # ---------------------------------------------------------------------------
 ANY_SAMPLES = [{"k": [1, "\u00e9"], "n": {"b": True}}, "s", 7, [True, 1.5], {}]
-STR_SAMPLES = ["a", "123", "", "\u00e9\n\u2028\U0001F600", "true"]
+STR_SAMPLES = ["a", "123", "", "\u00e9\n\u2028\U0001F600", "true",
+               # boundary strings: leading/trailing blank, tab, newline, a lone blank, NUL, a lone line separator
+               " a", "a ", "a\n", "\ta", " ", "a\x00b", "\u2028", "\r\n a \r\n"]
 STR_BY_WIRE_NAME = {
     # members whose documented format matters to a declared validator / invariant
-    "uri": ["file:///r/%C3%A9", "file:///"],
-    "url": ["http://example.test/mcp", "https://h:8443/x/"],
+    "uri": ["file:///r/%C3%A9", "file:///", "file:///r/x ", "file:///r/\u2028x\n", "file:///r/a\x00b"],
+    "url": ["http://example.test/mcp", "https://h:8443/x/", "http://example.test/a ", "http://example.test/\ta\n"],
 }
 OBJ_BY_WIRE_NAME = {
     # JSONRPCError.error is declared Dict[str, Any] with the documented shape {code: int, message: str, data?: any}
@@ -390,3 +392,46 @@ def nested_models(cls: type, wire: Any) -> Iterator[Tuple[type, Dict[str, Any]]]
             if isinstance(v, list):
                 for x in v:
                     yield from nested_models(typing.get_args(tp)[0], x)
+
+
+def list_nested_alias_sites(classes) -> List[Tuple[str, str, str, str]]:
+    """(container class, list member, nested class, aliased wire member) for every
+    model class with an aliased member that another class holds inside a list."""
+    out = []
+    for c in classes:
+        for f in fields(c):
+            tp, _ = _strip_optional(f.annotation)
+            if typing.get_origin(tp) not in (list, List) or not typing.get_args(tp):
+                continue
+            el, _ = _strip_optional(typing.get_args(tp)[0])
+            arms = list(typing.get_args(el)) if typing.get_origin(el) is Union else [el]
+            for m in arms:
+                if is_model(m):
+                    for g in fields(m):
+                        if g.wire != g.name:
+                            out.append((short(c), f.wire, short(m), g.wire))
+    return sorted(set(out))
+
+
+def list_nested_alias_hits(cls: type, wire: Any) -> List[Tuple[str, str, str, str]]:
+    """Which of those sites this wire object populates (value not null)."""
+    out = []
+    if not isinstance(wire, dict):
+        return out
+    for f in fields(cls):
+        tp, _ = _strip_optional(f.annotation)
+        if typing.get_origin(tp) not in (list, List) or not typing.get_args(tp) or not isinstance(wire.get(f.wire), list):
+            continue
+        el, _ = _strip_optional(typing.get_args(tp)[0])
+        arms = [a for a in (typing.get_args(el) if typing.get_origin(el) is Union else [el]) if is_model(a)]
+        for item in wire[f.wire]:
+            if not isinstance(item, dict):
+                continue
+            for m in arms:
+                req = [g.wire for g in fields(m) if g.required]
+                if not all(r in item for r in req):
+                    continue
+                for g in fields(m):
+                    if g.wire != g.name and item.get(g.wire) is not None:
+                        out.append((short(cls), f.wire, short(m), g.wire))
+    return out
